@@ -36,8 +36,8 @@ CERT_DIR = '/repo/test/unit/transport/certs'
 
 
 def notif_text(k):
-    from cases.session_gen import event_time
-    return '<notification xmlns="%s"><eventTime>%s</eventTime><ev>n%d-é</ev></notification>' % (NOTIF_NS, event_time(k), k)
+    from cases.session_gen import event_time, big_root_attrs
+    return '<notification xmlns="%s"%s><eventTime>%s</eventTime><ev>n%d-é</ev></notification>' % (NOTIF_NS, big_root_attrs(k), event_time(k), k)
 
 
 def reply_text(r):
